@@ -12,6 +12,8 @@ concludes from the regenerated IR, and `./check` diffs the answers with what the
   search real|corpus <name>  ok | unguarded   (in the safe set of both modes?)
   cfn <index>                the index-th registered Lua function of the C modules, canonical line
   fact <name>                a generated inventory, canonical line
+  ro <callee>                is the callee one of the `ro`-classified functions of the state API that the analysed
+                             code calls (the harness drives those on the real code: `unchanged`)
 -/
 open Aergo Aergo.DriverLib Aergo.HostApi
 
@@ -32,8 +34,44 @@ def c20Verdict (t : C20Tables) (set name : String) : Option Verdict :=
 def c20Pairs (l : List (String × String)) : String :=
   " ".intercalate (l.map fun (a, b) => a.replace " " "_" ++ "=" ++ b.replace " " "_")
 
+def c20Triples (l : List (String × String × String)) : String :=
+  " ".intercalate (l.map fun (a, b, c) => a.replace " " "_" ++ "=" ++ b.replace " " "_" ++ "=" ++ c.replace " " "_")
+
+def c20Cmp : CCmp → String
+  | .gt k => s!"gt{k}" | .ge k => s!"ge{k}" | .ne k => s!"ne{k}" | .truthy => "truthy" | .other => "other"
+
+def c20Guards (f : CLuaFn) : String :=
+  ",".intercalate (f.guards.map fun g => s!"{g.call}:{c20Cmp g.cmp}:{if g.raises then "raise" else "noraise"}")
+
+/-- `ro <callee>`: is the callee among the reads of the state API that the analysed code calls? -/
+def c20Ro (name : String) : String :=
+  if Gen.HostApi.roCallees.contains name then "unchanged" else "not-referenced"
+
 def c20Fact (name : String) : Option String :=
   match name with
+  | "flagForeign" => some (c20Pairs Gen.HostApi.flagForeign)
+  | "ctxArgs" => some (c20Triples Gen.HostApi.ctxArgs)
+  | "isViewWrites" => some (c20Pairs Gen.HostApi.isViewWrites)
+  | "sqlOpens" => some (" ".intercalate (Gen.HostApi.sqlOpens.map fun (a, b, _, d) => a ++ "=" ++ b ++ "=" ++ d))
+  | "sqlExecs" => some (c20Triples Gen.HostApi.sqlExecs)
+  | "ifaceImpls" => some (c20Triples Gen.HostApi.ifaceImpls)
+  | "flagBranches" => some (c20Triples Gen.HostApi.flagBranches)
+  | "roCallees" => some (" ".intercalate Gen.HostApi.roCallees)
+  | "checkViewRet" => some (" ".intercalate (Gen.HostApi.checkViewRet.map (·.replace " " "_")))
+  | "refuseExempt" => some (" ".intercalate (Gen.HostApi.refuseExempt.map (·.1)))
+  | "refuseOK" => some (toString Gen.HostApi.program.refuseOK)
+  | "viewBracket" =>
+    some (match Gen.HostApi.program.fns.find? (·.name == "executor.call") with
+      | some fn => (match fn.atomIdx? "executor.isView" with
+        | some a => toString (bracketFirst Gen.HostApi.program a fn.body)
+        | none => "no-isView-test")
+      | none => "missing")
+  | "isViewSet" =>
+    some (match Gen.HostApi.program.fns.find? (·.name == "newExecutor") with
+      | some fn => (match fn.body.dropFinalRet with
+        | some init => toString (init.emitsOnNormal .viewSet)
+        | none => "no-final-return")
+      | none => "missing")
   | "viewWrites" => some (c20Pairs Gen.HostApi.viewWrites)
   | "queryWrites" => some (c20Pairs Gen.HostApi.queryWrites)
   | "queryCtxLits" => some (c20Pairs Gen.HostApi.queryCtxLits)
@@ -67,10 +105,11 @@ def c20Step (t : C20Tables) (line : String) : String :=
     | some i =>
       match t.cfns[i]? with
       | some f =>
-        s!"{f.file} {f.table}.{f.luaName} cfunc={f.cfunc.replace " " "_"} callbacks=[{",".intercalate f.callbacks}] sqlstep={f.sqlStep} guards=[{",".intercalate f.guardsBeforeStep}]"
+        s!"{f.file} {f.table}.{f.luaName} cfunc={f.cfunc.replace " " "_"} callbacks=[{",".intercalate f.callbacks}] sqlstep={f.sqlStep} guards=[{c20Guards f}] stopsview={f.viewGuarded}"
       | none => "none"
     | none => "bad-op"
   | ["fact", name] => (c20Fact name).getD "bad-op"
+  | ["ro", name] => c20Ro name
   | _ => "bad-op"
 
 def main : IO UInt32 :=
